@@ -78,6 +78,7 @@ func checkC06(c *km.Ctx) {
 	r.Rule("R-C06-2", "the admission mask passed to checkAuth by each caller equals the reviewed reference (certificate kinds only where the endpoint takes them)", 30)
 	r.Rule("R-C06-3", "every success return of checkAuth is preceded on every path by the CSRF test: method GET, or no Origin/Referer, or no Host, or Origin/Referer host equal to the request host", 3)
 	r.Rule("R-C06-4", "getUsernameIfKeymasterSigned admits a chain only after the deny-list comparison of the leaf key and after refusing chains anchored at the role-requesting CA certificate", 2)
+	r.Rule("R-C06-6", "the netblocks an IP-restricted certificate is checked against are the ones it was minted with: encoder and decoder of the address extension agree (bit length, byte count, mask, family constant) and the verifier accepts only on Contains(peer)", 7)
 	r.Rule("R-C06-5", "checkAuth sets each credential bit only under the success of the matching verifier (shared with R-C01-3)", 4)
 
 	checkAuth := c.MustFunc("R-C06-1", "cmd/keymasterd", "(*RuntimeState).checkAuth")
@@ -238,6 +239,7 @@ func checkC06(c *km.Ctx) {
 	checkCSRF(c, s, checkAuth)
 	checkKeymasterSigned(c, s, "R-C06-4")
 	checkAuthBits(c, s, checkAuth, "R-C06-5")
+	checkIPCodec(c, s, "R-C06-6")
 }
 
 // authTypeConsts reads the AuthType* constants of package main.
